@@ -164,7 +164,8 @@ def run_unit(u):
                         if lexdis_on and not full:
                             v["attribution"] = "glr-prefix-lexdis-prefers-tokens"
                         elif spec.exhaustive:
-                            v["fingerprint"] = h16(["F-GLR-1", gtxt, "prefix", case["lexical_disambiguation"], case["input"]])
+                            v["fingerprint"] = h16(["F-GLR-1", gtxt, "prefix", case["lexical_disambiguation"],
+                                                    strip_layout(case["input"])])
                         elif "nullable" in case["features"]:
                             v["attribution"] = "glr-nullable-loss"
                         res["violations"].append(v)
@@ -197,7 +198,7 @@ def run_unit(u):
                          "missing": sorted(map(repr, missing))[:4]}
                     if spec.exhaustive:
                         v["fingerprint"] = h16(["F-GLR-2", gtxt, "prefix", case["lexical_disambiguation"],
-                                                case["input"], sorted(map(repr, missing))])
+                                                strip_layout(case["input"]), canon_keys(missing, case["input"])])
                     elif "nullable" in case["features"]:
                         v["attribution"] = "glr-nullable-loss"
                     res["violations"].append(v)
